@@ -21,3 +21,6 @@ func VerifMethodLines(svc *protogen.Service, m *protogen.Method) []string {
 	(&Generator{}).generateRPCMethod(p, svc, m)
 	return lines
 }
+
+// VerifGenerateWith runs the TS client generator with the given plugin.
+func VerifGenerateWith(p *protogen.Plugin) error { return New(p).Generate() }
